@@ -5,7 +5,7 @@ behaviour) and what is declined (clauses that quantify over runtime values no st
 reach can bound)."""
 from .properties import prop
 
-prop('C01', ['K1', 'M1', 'M2', 'M3', 'M7', 'T4', 'DC1', 'DC4', 'M8'],
+prop('C01', ['K1', 'M1', 'M2', 'M3', 'M7', 'T4', 'DC1', 'DC4', 'M8', 'U1'],
      'Round trip, structural part. Decided from the source: every PyTreeKind switch is exhaustive '
      '(K1); for each of the 9 container kinds the three node producers store the same metadata '
      'shape and take the arity from the container they enumerate (M1); MakeNode reads each shape '
@@ -57,7 +57,7 @@ prop('C04', ['T5', 'N1', 'N2', 'N3', 'N4', 'N5', 'F8', 'M4', 'K4'],
      'node_entries (M4); the backwards walkers reverse their result (K4).',
      ['accessor(tree) is the leaf', 'prefix-freeness of paths', 'codify/eval agreement'])
 
-prop('C05', ['F1', 'F14', 'F2', 'F3', 'F4', 'F11', 'W2', 'K3', 'M7', 'P1', 'P4', 'M2', 'M3', 'W1'],
+prop('C05', ['F1', 'F14', 'F2', 'F3', 'F4', 'F11', 'W2', 'K3', 'M7', 'P1', 'P4', 'M2', 'M3', 'W1', 'U1'],
      'tree_map family, structural part: options forwarded unchanged (F1); the six map functions, '
      'three transpose-map and three broadcast-map functions are one normal form modulo the '
      'declared variation points, with the extra iterable first (F2); every rest is matched by an '
@@ -136,7 +136,7 @@ prop('C11', ['S1', 'S2', 'S3', 'K2', 'NS1'],
      'The loader looks custom types up in the recorded namespace (NS1).',
      ['cross-process behaviour', 'protocols', 'post-load equality'])
 
-prop('C12', ['G7', 'G1', 'G2', 'G3', 'G4', 'G8', 'G5', 'G6', 'L4', 'K6', 'K6py', 'NS1', 'D4', 'D5'],
+prop('C12', ['G7', 'G1', 'G2', 'G3', 'G4', 'G8', 'G5', 'G6', 'L4', 'K6', 'K6py', 'NS1', 'D4', 'D5', 'I5'],
      'Registry: validation dominates mutation and nothing fallible follows the first mutation '
      '(G1); no C-API failure result is ignored (G2); the Python mirror is written only after the '
      'engine call, under the lock, with the same key, by exactly two functions (G3); a mutation '
@@ -162,7 +162,7 @@ prop('C14', ['A1', 'A3', 'A5', 'A6', 'A7', 'G5', 'M3'],
      'call (A5); the Python package reads a mapping of the caller by a computed key only after a key-set comparison has excluded missing keys - a defaultdict would answer such a read by inserting into the tree of the caller (A6) - and mutates in place only containers it created itself (A7); key lists are copies (M3); registry references are paired (G5).',
      ['observational immutability over histories'])
 
-prop('C15', ['E1', 'E2', 'E3', 'E4', 'E5', 'E6', 'K7', 'I2', 'A5', 'D1'],
+prop('C15', ['E1', 'E2', 'E3', 'E4', 'E5', 'E6', 'K7', 'I2', 'A5', 'D1', 'U1'],
      'Failing callbacks, structural part: guard sets are cleaned on every exit (E1); raw owned '
      'references are released on every path (E2); stealing sinks get owned references (E3); no '
      'user code between allocation and fill of a tuple/list (E4); only the TypeError fallbacks of '
@@ -172,7 +172,7 @@ prop('C15', ['E1', 'E2', 'E3', 'E4', 'E5', 'E6', 'K7', 'I2', 'A5', 'D1'],
      'the with-block, whatever the body raises (D1). Thorough tier: X1 across 4 CPython configurations.',
      ['reference-count equality after a fault at every k'], thorough_rules=['X1'])
 
-prop('C16', ['K8', 'K9', 'K9py', 'K7', 'I1', 'I2', 'I3', 'I4', 'I5', 'S3'],
+prop('C16', ['K8', 'K9', 'K9py', 'K7', 'I1', 'I2', 'I3', 'I4', 'I5', 'S3', 'U1'],
      'Memory safety / recursion, structural part: the three forward traversals share one depth '
      'discipline (K8); every recursive cycle of the engine call graph is bounded by '
      'MAX_RECURSION_DEPTH (K9) and Python-level recursion over tree depth is enumerated (K9py); no '
